@@ -363,6 +363,35 @@ def run_case(case):
             m_.set_environment(late[id(m_)])
         late = None
     verify("at the end")
+    if case.get("fork"):
+        # the experiment is branched: copy.deepcopy(model) gives a second, independent model whose listings show the copies of the
+        # same components, and what joins the copy is listed there and nowhere else
+        import copy
+        mi = int(case["fork"]) % nm
+        m = models[mi]
+        before = {t: (None if m.systems[t] is None else [c.agent.id for c in m.systems[t]]) for t in TYPES}
+        try:
+            m2 = copy.deepcopy(m)
+        except Exception as e:
+            raise Violation("deepcopy-raised", f"copy.deepcopy(model {mi}) raised {type(e).__name__}: {e}")
+        for t in TYPES:
+            got = m2.systems[t]
+            got = None if got is None else [c.agent.id for c in got]
+            if got != before[t]:
+                raise Violation("copy-listing", f"deep copy of model {mi}: {t.__name__} listing shows agents {got}, the original shows {before[t]}")
+            if m2.systems[t] is not None and any(all(c is not a_[t] for a_ in m2.environment) for c in m2.systems[t]):
+                raise Violation("copy-listing", f"deep copy of model {mi}: the {t.__name__} listing holds components that do not belong to the copy's agents")
+        newcomer = Agent("forked", m2)
+        comp = CompA(newcomer, m2)
+        newcomer.add_component(comp)
+        m2.environment.add_agent(newcomer)
+        lst = m2.systems[CompA]
+        if lst is None or not any(c is comp for c in lst):
+            raise Violation("copy-listing", f"deep copy of model {mi}: an agent that joined the copy is not in the copy's CompA listing")
+        after = {t: (None if m.systems[t] is None else [c.agent.id for c in m.systems[t]]) for t in TYPES}
+        if after != before:
+            raise Violation("copy-not-independent", f"after an agent joined the deep copy of model {mi} the original's listings changed from {before} to {after}")
+        labels.add("model-deep-copied")
     if PER > 64:
         labels.add("population>64")
     return {"nontrivial": nontrivial, "labels": sorted(labels) + [f"env-{k}" for k in sorted(set(kinds))], "excluded": excluded}
@@ -406,6 +435,6 @@ def strategy(tier):
 
 def _small(m, a, t, paired, k, pos, foreign, attach, join_abs, join_rel, ops, init):
     return st.fixed_dictionaries({"models": st.lists(st.integers(0, 4), min_size=2, max_size=3),
-                                  "late_install": st.sampled_from([False, False, False, True]),
+                                  "late_install": st.sampled_from([False, False, False, True]), "fork": st.sampled_from([0, 0, 0, 0, 1, 2]),
                                   "init": wone_of(st.just([]), st.lists(init, min_size=15, max_size=15)),
                                   "ops": wone_of(st.lists(ops, min_size=1, max_size=12), sized_lists(ops, 8, 45), sized_lists(ops, 8, 45))})
